@@ -54,7 +54,7 @@ def work(ctx):
                 ctx.count("unsupported-constant")
         ctx.sample({"origin": origin, "name": k.co_name, "code_bytes": len(k.co_code), "consts": len(k.co_consts)})
 
-    for origin, k in corpus.code_objects(ctx.tier, rng):
+    for origin, k in corpus.code_objects(ctx.tier, rng, huge=True):
         check(origin, k, False)
     # every __future__ feature the compiler accepts, alone and with a function / class / lambda inside
     import __future__
